@@ -148,6 +148,14 @@ def _render_check(item):
             hexrep = None
         else:
             hexrep = (rep[len(hd):].encode('utf-8').hex() + '.', ','.join(a['msg'].encode('utf-8').hex() + '.' for a in acts))
+        # the "actions" array of the JSON text, for the comparison with lean/DroopModel/Json.lean (sort_keys puts it first)
+        hexjson = None
+        js = E.json()
+        mark = '{\n  "actions": [\n'
+        if not js.startswith(mark) or '\n  ],\n' not in js:
+            hexjson = js[:4000].encode('utf-8').hex() + '.'     # laid out differently: the correspondence reports it
+        else:
+            hexjson = js[len(mark):js.index('\n  ],\n')].encode('utf-8').hex() + '.'
         # the three renderings of one (interrupted) record are renderings of the same record: asking for all of them, as
         # Droop.main does, adds the interruption note once
         n0 = len(acts)
@@ -160,8 +168,8 @@ def _render_check(item):
                         % (len(d3.split('\n')) - 2, len(j3['actions']), n3))
     except Exception as e:
         import traceback
-        return ('exc', type(e).__name__ + ' ' + traceback.format_exc()[-300:], None, None)
-    return ('bad' if errs else 'ok', errs[:4], hexdump, hexrep)
+        return ('exc', type(e).__name__ + ' ' + traceback.format_exc()[-300:], None, None, None)
+    return ('bad' if errs else 'ok', errs[:4], hexdump, hexrep, hexjson)
 
 
 @prop('C18')
@@ -188,6 +196,7 @@ def C18(run):
     res = common.pmap(_render_check, items, limit=20.0)
     ins, idx = [], []
     rins, ridx = [], []
+    jins, jidx = [], []
     nb = 0
     for k, ((p, o), r) in enumerate(zip(items, res)):
         if r[0] == 'bad' or r[0] == 'exc':
@@ -198,8 +207,24 @@ def C18(run):
             ins.append('DUMP %d %s' % (expected_display(o), gen.case_line(p, o))); idx.append(k)
             if len(r) > 3 and r[3]:
                 rins.append('REPORT %d %s @@ %s' % (expected_display(o), gen.case_line(p, o), r[3][1])); ridx.append(k)
+            if len(r) > 4 and r[4] and r[3]:
+                jins.append('JSON %d %s @@ %s' % (expected_display(o), gen.case_line(p, o), r[3][1])); jidx.append(k)
     model = common.run_driver_parallel(ins)
     rmodel = common.run_driver_parallel(rins)
+    jmodel = common.run_driver_parallel(jins)
+    njc = 0; firstj = None
+    for k, m in zip(jidx, jmodel):
+        if m != res[k][4]:
+            njc += 1
+            if firstj is None:
+                try:
+                    gm = bytes.fromhex(m.rstrip('.')).decode(); em = bytes.fromhex(res[k][4].rstrip('.')).decode()
+                    diff = next(((x, y) for x, y in zip(gm.split('\n'), em.split('\n')) if x != y), (gm[-200:], em[-200:]))
+                except ValueError:
+                    diff = (m[:200], '')
+                firstj = dict(blt=gen.blt(items[k][0]), options=items[k][1], model_line=diff[0][:300], implementation_line=diff[1][:300])
+    run.coverage['json_action_arrays_compared_with_model'] = len(jins)
+    run.coverage['json_disagreements'] = njc
     nrc = 0; firstr = None
     for k, m in zip(ridx, rmodel):
         if m != res[k][3][0]:
@@ -230,6 +255,9 @@ def C18(run):
     if nrc and not run.violations:
         firstr.update(kind='correspondence', broken=['correspondence REPORT (lean/DroopModel/Report.lean vs ElectionRecord.report, action section)'], disagreeing_cases=nrc)
         run.violation(firstr, 'no-failing-input-found')
+    if njc and not run.violations:
+        firstj.update(kind='correspondence', broken=['correspondence JSON (lean/DroopModel/Json.lean vs ElectionRecord.json, actions array)'], disagreeing_cases=njc)
+        run.violation(firstj, 'no-failing-input-found')
     run.coverage['renderings_checked'] = len(items)
     run.coverage['dump_bytes_compared_with_model'] = len(ins)
     run.coverage['dump_disagreements'] = ncorr
